@@ -16,18 +16,51 @@ KEY_SKDM_UNSUPPORTED = "message payload carrying sender-key distribution togethe
 
 
 def regenerate(ctx):
+    """coq/Gen/C06Layers.v + C06HandleMaps.v from the tree under test: syntactic extraction cross-checked against
+    the evaluated helpers / handleMaps, evaluated table when the source shape is not recognised (see
+    harness/translators/c06tables.py).  Reports helpers whose value depends on the call history (concrete call
+    sequence) and disagreements between the two extractions; None when neither extraction is usable."""
     from .env import REPO, VERIF
     from .translators import c06tables
     try:
-        out = c06tables.regenerate(REPO, os.path.join(VERIF, "coq", "Gen"))
-        ctx.ties["translator:c06tables"] = "ok"
-        return out
+        out = c06tables.regenerate(REPO, os.path.join(VERIF, "coq", "Gen"), scratch=getattr(ctx, "scratch", None))
     except c06tables.TranslateError as e:
         ctx.ties["translator:c06tables"] = "broken: %s" % e
         return None
     except Exception as e:  # unparsable source etc.
         ctx.ties["translator:c06tables"] = "broken: %r" % (e,)
         return None
+    ctx.ties["translator:c06tables"] = "ok" if not out["tie_problems"] else \
+        "broken: %s / %s" % (out["layers_path"], out["handlemaps_path"])
+    ctx.coverage["translator_path"] = {"C06Layers.v": out["layers_path"], "C06HandleMaps.v": out["handlemaps_path"]}
+    ctx.coverage["helper_evaluation"] = out["eval"]
+    ctx.notes.append("coq/Gen/C06Layers.v produced by: %s; coq/Gen/C06HandleMaps.v produced by: %s"
+                     % (out["layers_path"], out["handlemaps_path"]))
+    for f in out["history_findings"][:3]:
+        ctx.violation("oracle:helper-call-history", f)
+    for name, case in out["tie_problems"][:3]:
+        ctx.violation(name, case, found_input=False)
+    return out
+
+
+def replay_translator_case(ctx, data):
+    """replay of the records written by regenerate(); None when the record is of another kind"""
+    from .env import REPO
+    from .translators import c06tables, stack_eval
+    case = data["case"]
+    if "helper_calls" in case:
+        return stack_eval.replay_history(REPO, case, ctx.pid, getattr(ctx, "scratch", None))
+    if "syntactic" in case and "evaluated" in case:
+        try:
+            rep = c06tables.analyse(REPO, getattr(ctx, "scratch", None))
+        except c06tables.TranslateError as e:
+            print("translator fails now:", e)
+            return 1
+        print("produced now by:", rep["layers_path"], "/", rep["handlemaps_path"])
+        for name, c in rep["tie_problems"]:
+            print("still differs:", json.dumps(c)[:600])
+        return 1 if rep["tie_problems"] else 0
+    return None
 
 
 def kinds():
